@@ -147,17 +147,13 @@ Theorem C12_suffices_cnv_pairwise_apply_dft_refuted :
 Proof. exact suffices_cnv_pairwise_apply_dft_refuted. Qed.
 Print Assumptions C12_suffices_cnv_pairwise_apply_dft_refuted.
 
-(* vmp_apply_dft: two nested takes; n a power of two >= 8 (below, the VecZnxDft temporary is not a multiple of 64) *)
+(* vmp_apply_dft: two nested takes; n a power of two >= 8 (the FFT64 kernels need n >= 8 anyway) *)
 Theorem C12_suffices_vmp_apply_dft : forall fam n rs a rows ci co size : Z,
   is_fam fam -> pow2 n -> 8 <= n -> 0 <= a -> 0 <= rows -> 0 <= ci ->
   run_takes (t_vmp_apply_dft fam n a rows ci) (0, halimpl_vmp_apply_dft_tmp_bytes fam n rs a rows ci co size) <> None.
 Proof. exact main_vmp_apply_dft. Qed.
 Print Assumptions C12_suffices_vmp_apply_dft.
-Theorem C12_suffices_vmp_apply_dft_small_n_refuted :
-  exists fam n rs a rows ci co size, is_fam fam /\ pow2 n /\ 1 <= a /\ 1 <= rows /\ 1 <= ci /\
-    run_takes (t_vmp_apply_dft fam n a rows ci) (0, halimpl_vmp_apply_dft_tmp_bytes fam n rs a rows ci co size) = None.
-Proof. exact suffices_vmp_apply_dft_small_n_refuted. Qed.
-Print Assumptions C12_suffices_vmp_apply_dft_small_n_refuted.
+
 
 (* ------------------------------------------------------------------ poulpy-core, every n >= 0 *)
 Theorem C12_suffices_glwe_normalize : forall fam n : Z, is_fam fam -> 0 <= n -> forall res : infos,
